@@ -78,6 +78,7 @@ private:
     return result;
   }
   void AfterInsert(EntityUID target);
+  void ResetBrokenDependants(EntityUID target);
   void ResetDependants(EntityUID target);
 };
 
